@@ -70,6 +70,11 @@ CHECKS["C20"] = dict(engine="Alpn", design="§4 C20",
     note="Trusted: TLC. Payload content is seeded random base64; exhaustive over lengths in the thorough tier, not over content.",
     technique="TLA+ spec (Alpn.tla) + TLC exhaustive on scaled constants + exhaustive-length replay of the real functions + TLC trace validation")
 
+CHECKS["C17"] = dict(engine="Split", design="§4 C17",
+    text="Split.tla gives the routing function (nondeterministic where the code ranges over a map) and the property predicate; TLC checks every registry x client. TLC-drawn registries and client sequences (authenticated node with extra names incl. the reserved ones, base-TLS clients offering arbitrary names, fetch-only clients, final close of the base listener) drive a real SplitListener over a real InterceptingListener; every delivery (which sub-listener, connection type, negotiated protocol) and the close propagation are judged by SplitTrace.tla.",
+    note="Trusted: crypto/tls, TLC. A connection not handed out within 400 ms counts as closed. An application whose own base TLS configuration advertises a library-prefixed protocol is outside the quantifier.",
+    technique="TLA+ spec (Split.tla) + TLC exhaustive + TLC-generated behaviours on the real listeners + TLC trace validation")
+
 PENDING = {}
 for i in range(1, 21):
     pid = "C%02d" % i
